@@ -153,7 +153,10 @@ fn core_word_neg(xs: &mut State) -> Xresult {
 fn core_word_abs(xs: &mut State) -> Xresult {
     let a = xs.pop_data()?;
     match a.value() {
-        Cell::Int(a) => xs.push_data(Cell::Int(a.abs())),
+        Cell::Int(a) => {
+            let abs = a.checked_abs().ok_or_else(|| Xerr::IntegerOverflow)?;
+            xs.push_data(Cell::Int(abs))
+        }
         Cell::Real(a) => xs.push_data(Cell::Real(a.abs())),
         _ => Err(num_type_error(a)),
     }
